@@ -46,7 +46,7 @@ func c18Docs(thorough bool) []doc {
 // first expressions: every built-in at least once with arguments that succeed on some document, and the core constructs
 var c18First = []string{
 	"@", "s", "n", "a", "sa", "o", "oa", "p", "missing", "a[0]", "a[-1]", "a[1:]", "a[::-1]", "a[*]", "a[]", "oa[*].k", "oa[?n > `1`]", "oa[?n > `1`].k", "o.*", "*", "oa[*].*", "[s, n]", "{x: s, y: a}",
-	"oa[*].{x: k}", "oa[*].[k, n]", "a | [0]", "`[1,null,{\"a\":[]}]`", "`{\"a\":null}`", "'raw'", "`1.50`", "`null`", "n + n", "n - `0.5`", "n * n", "n / `4`", "n // `2`", "n % `2`", "-n", "+n",
+	"oa[*].{x: k}", "oa[*].[k, n]", "a | [0]", "`[1,null,{\"a\":[]}]`", "`{\"a\":null}`", "'raw'", "`1.50`", "`null`", "`7 `", "`-1.5\n`", "`0\t`", "` [1, 2 ] `", "`{\"a\": 1 } `", "[`7 `, `8`]", "n + n", "n - `0.5`", "n * n", "n / `4`", "n // `2`", "n % `2`", "-n", "+n",
 	"n == n", "n < `2`", "s == 'a,b'", "!s", "s && n", "missing || a", "let $v = a in [$v, $v]", "let $v = n in oa[*].[$v, n]",
 	"abs(n)", "avg(a[?@])", "ceil(n)", "contains(a, `1`)", "contains(s, 'a')", "ends_with(s, 'b')", "find_first(s, 'b')", "find_last(s, 'a', `0`)", "floor(n)", "from_items(p)", "group_by(oa, &k)",
 	"items(o)", "join('-', sa)", "keys(o)", "length(a)", "length(s)", "length(o)", "lower(s)", "map(&k, oa)", "map(&[@], a)", "max(a[?@])", "max(sa)", "max_by(oa, &n)", "merge(o, {z: n})", "min(a[?@])",
@@ -61,7 +61,7 @@ var c18Second = []string{
 	"type(@)", "@", "[0]", "[*]", "length(@)", "to_string(@)", "@ == @", "sort(@)", "keys(@)", "@ + `1`", "[]", "*", "k", "[?@]", "[-1]", "[1:]", "to_array(@)", "reverse(@)", "not_null(@)", "values(@)", "items(@)",
 	"abs(@)", "ceil(@)", "sum(@)", "max(@)", "join(',', @)", "contains(@, `1`)", "to_number(@)", "lower(@)", "[@]", "{v: @}", "@[0]", "@.*", "@ < `2`", "-@", "!@", "@ && 'y'", "map(&type(@), @)", "sort_by(@, &n)",
 	"group_by(@, &k)", "from_items(@)", "merge(@, @)", "zip(@, @)", "[*].k", "[*].n", "length(to_string(@))", "split(@, ',')", "pad_left(@, `4`)", "trim(@)", "find_first(@, 'a')", "floor(@)", "avg(@)", "min(@)",
-	"upper(@)", "starts_with(@, 'a')", "replace(@, 'a', 'b')", "type(@[0])", "[*][0]", "x", "[?k == 'x']", "@ * `2` == @ + @", "[::-1]", "*.k", "to_array(@)[0]", "@ == `[]`", "@ == `null`",
+	"upper(@)", "starts_with(@, 'a')", "replace(@, 'a', 'b')", "type(@[0])", "[*][0]", "x", "[?k == 'x']", "k.type(@)", "[0].type(@)", "(k | type(@))", "k.not_null(@, 'd')", "x.to_array(@)", "[0] | [0].to_string(@)", "k.k.length(to_array(@))", "@ * `2` == @ + @", "[::-1]", "*.k", "to_array(@)[0]", "@ == `[]`", "@ == `null`",
 }
 
 func init() {
